@@ -709,17 +709,17 @@ def classify_loop(F, f, head, body):
     names = [c["path"] for c in calls]
     if any(n.endswith("Iterator>::next") or n.endswith("::Iterator::next") for n in names):
         return ("iterator", "driven by Iterator::next")
-    # cursor loop: an exit switch on Lt/Ge(cursor, bound) and an AddWithOverflow into the same local by a positive amount
-    incs = []
-    for i in body:
-        for s in bm[i]["stmts"]:
-            if s["k"] == "assign" and s["rv"]["k"] == "bin" and s["rv"]["op"] in ("AddWithOverflow", "Add"):
-                incs.append(s)
-    cmps = []
-    for i in body:
-        for s in bm[i]["stmts"]:
-            if s["k"] == "assign" and s["rv"]["k"] == "bin" and s["rv"]["op"] in ("Lt", "Ge", "Le", "Gt", "Ne", "Eq"):
-                cmps.append(s)
+    # cursor loop: an exit switch on Lt/Ge(cursor, bound) and an AddWithOverflow into the same local by a positive amount;
+    # the cursor may live in a small private helper object (`reader.advance(n)` / `reader.is_exhausted()`): the bodies of
+    # such helpers called in the loop count as part of it
+    stmts_all = [s for i in body for s in bm[i]["stmts"]]
+    for c in calls:
+        cp = (c.get("res") or {}).get("path", c["path"])
+        g = F.fns.get(cp)
+        if g is not None and explore.small_private_helper(g):
+            stmts_all += [s for b in g["blocks"] for s in b["stmts"]]
+    incs = [s for s in stmts_all if s["k"] == "assign" and s["rv"]["k"] == "bin" and s["rv"]["op"] in ("AddWithOverflow", "Add")]
+    cmps = [s for s in stmts_all if s["k"] == "assign" and s["rv"]["k"] == "bin" and s["rv"]["op"] in ("Lt", "Ge", "Le", "Gt", "Ne", "Eq")]
     if incs and cmps:
         # amount added: a constant >= 1, or a `consumed` count of an in-crate decoder (R6 + decoders consume >= 1 byte on success)
         pos = False
